@@ -372,6 +372,13 @@ def plans_C02(g, tier):
                                 g.create(2, g.shape(fn=CF1, mk1='ANY', nse=1), obj=1, lo=1, hi=2),
                                 g.create(3, g.shape(fn=F2, mk1='ANY', mk2='ANY', nse=1), obj=0, lo=1, hi=2)])
     iso_alpha = calls + [g.call(1, F1, 1), g.call(0, G1, 1), g.call(0, F2, 1, 1), g.call(1, G1, 1), g.call(1, F2, 1, 1), g.call(0, CF1, 1), g.call(1, CF1, 1)] + [g.release(i) for i in range(4)]
+    # a movable mock: the order of its expectations (newest first) survives any number of moves
+    mv_pre = []
+    for mks in itertools.product(('ANY', 'EQ', 'LT'), repeat=3):
+        for b in [(0, INF), (1, 2)]:
+            mv_pre.append([g.create(i, g.shape(mock='MV', fn=F1, mk1=mk, nse=1), obj=2, k1=1 if mk == 'EQ' else 2, lo=b[0], hi=b[1]) for i, mk in enumerate(mks)])
+    mv_alpha = [g.call(2, F1, a) for a in (0, 1, 2)] + [g.call(3, F1, a) for a in (0, 1, 2)] + [g.op(OP_MOVE_MOCK, obj=2, k1=3), g.op(OP_MOVE_MOCK, obj=3, k1=2)] + [g.release(i) for i in range(3)]
+    mv_plan = dict(name='sel_moved_mock', mask=M_C02, du=0, dm=4 if tier == 'quick' else 6, alphabet=mv_alpha, prefixes=mv_pre)
     mon_pre = monitor_prefixes(g)
     mon_alpha = calls + [g.op(OP_DELETE_WATCHED, obj=0), g.op(OP_DESTROY_SEQ, s1=0), g.op(OP_DESTROY_SEQ, s1=1)] + [g.release(i) for i in range(4)]  # a sequence object may die first: its steps are then unordered
     # two mock objects sharing the sequences: the death of one object does not release the steps registered on it
@@ -386,9 +393,9 @@ def plans_C02(g, tier):
     two_plan = dict(name='sel_two_objects', mask=M_C02, du=0, dm=4 if tier == 'quick' else 6, alphabet=two_alpha, prefixes=two_pre)
     mon_plan = dict(name='sel_with_monitor', mask=M_C02, du=0, dm=4 if tier == 'quick' else 6, alphabet=mon_alpha, prefixes=mon_pre)
     if tier == 'quick':
-        return [mon_plan, two_plan, dict(name='sel3', mask=M_C02, du=0, dm=4, alphabet=calls + rel, prefixes=c02_configs(g, ('ANY', 'EQ', 'LT'), [(0, INF), (1, 2)])),
+        return [mon_plan, two_plan, mv_plan, dict(name='sel3', mask=M_C02, du=0, dm=4, alphabet=calls + rel, prefixes=c02_configs(g, ('ANY', 'EQ', 'LT'), [(0, INF), (1, 2)])),
                 dict(name='isolation', mask=M_C02, du=0, dm=5, alphabet=iso_alpha, prefixes=iso_pre)]
-    return [mon_plan, two_plan, dict(name='sel3', mask=M_C02, du=0, dm=6, alphabet=calls + rel, prefixes=c02_configs(g, ('ANY', 'EQ', 'LT'), [(0, INF), (1, 2), (1, 1)])),
+    return [mon_plan, two_plan, mv_plan, dict(name='sel3', mask=M_C02, du=0, dm=6, alphabet=calls + rel, prefixes=c02_configs(g, ('ANY', 'EQ', 'LT'), [(0, INF), (1, 2), (1, 1)])),
             dict(name='isolation', mask=M_C02, du=0, dm=7, alphabet=iso_alpha, prefixes=iso_pre)]
 
 
